@@ -250,11 +250,11 @@ def ordTotal : Rules Int :=
   { hash := fun x => x % 3 - 1, equiv := fun x y => x % 6 == y % 6,
     less := some (fun a b => b % 6 < a % 6) }
 
-/-- lawful and ordered by a *partial* order with ties (classes 2k and 2k+1 tie);
+/-- lawful and ordered by a *partial* order with ties (the two classes of a bucket tie);
 a strict weak order, so every stable sort agrees on it -/
 def ordTies : Rules Int :=
   { hash := fun x => x % 3 - 1, equiv := fun x y => x % 6 == y % 6,
-    less := some (fun a b => a % 6 / 2 < b % 6 / 2) }
+    less := some (fun a b => a % 3 < b % 3) }
 
 /-- UNLAWFUL: 0 and 2 are equivalent but hash to different buckets -/
 def unlawful : Rules Int := { hash := fun x => x % 3, equiv := fun x y => x % 2 == y % 2 }
